@@ -136,7 +136,7 @@ var (
 	prefixMsk [MaxSteps]uint32
 	nprefix   int32
 	horizon   int32 = MaxSteps - 8
-	live      int32         // controlled goroutines not yet finished or abandoned (norace accounting)
+	live      int32 // controlled goroutines not yet finished or abandoned (norace accounting)
 	execDone  = make(chan struct{}, 1)
 
 	// outcome of the execution
@@ -558,10 +558,37 @@ func Poll() {
 // invoke the janitor's own cleanup function as an explicit operation instead (DESIGN §2.1).
 var daemonFuncs = map[string]bool{"NewTrait": true}
 
+// Goroutines started while a cache instance is being constructed are its daemons (janitor, items-count
+// reporter), wherever in the constructor call tree the go statement sits. Harnesses bracket constructor
+// calls with Construct.
+var nConstructing int32
+
+//go:norace
+func constructing() bool { return nConstructing > 0 }
+
+//go:norace
+func setConstructing(d int32) { nConstructing += d }
+
+// Construct runs a constructor; goroutines it starts are treated as daemons.
+func Construct(f func()) {
+	setConstructing(1)
+	defer setConstructing(-1)
+
+	f()
+}
+
+// RunDaemons makes daemon goroutines (janitor, items-count reporter) start for real. They must never run
+// while a controlled execution is active.
+var RunDaemons bool
+
 // Go starts fn as a controlled thread (or as a plain goroutine when no execution is active).
 // encl is the name of the function containing the rewritten go statement.
 func Go(encl string, fn func()) {
-	if daemonFuncs[encl] {
+	if daemonFuncs[encl] || constructing() {
+		if RunDaemons {
+			go fn() // real goroutine, real timers; only used by harnesses that run no controlled execution
+		}
+
 		return
 	}
 
